@@ -2,7 +2,7 @@
 (mCrew.IncVersion() / ++<version member>) reachable in its body or in the member functions it calls?
 Built from the clang JSON AST of props/C15/inst.cpp (one run per class) with tools/cxx2coq.py's dump_ast/load_objs.
 The result is written as Gallina (Gen_VersionTable.v) and checked against the model's classification in Coq."""
-import os, re, sys
+import os, re, sys, json
 import cxx2coq
 
 # class -> (define for inst.cpp, AST filter)
@@ -216,7 +216,41 @@ def build(repo, classes=None):
     return rows
 
 
-def to_coq(rows, leak_rows=(), noexc=((), 0), sites=()):
+def guard_prefix_facts(repo, gen_cfgs):
+    """review round: the `"prefix": {"until_stmt": k}` cuts of the translator configs are hand-set.  For every function translated as a
+    guard prefix: how many assignment / compound-assignment / ++ / -- operators the statements BEFORE the cut contain, and the names of
+    everything they call (member functions, operators, free functions).  TableCheck.v requires 0 writes and a fixed list of query names.
+    Functions translated as whole bodies (no prefix entry) are listed with cut = total."""
+    here = os.path.dirname(os.path.abspath(__file__))
+    rows = []
+    for cf in gen_cfgs:
+        cfg = json.load(open(os.path.join(here, cf))); cfg.setdefault('includes', [os.path.join(repo, 'include')])
+        spec = cxx2coq.find_spec(_ast(cfg, repo), cfg)
+        for fn in cfg['functions']:
+            name = fn['name']; idx = fn.get('index', 0); pf = (cfg.get('prefix') or {}).get(name)
+            if not pf:
+                continue
+            ds = cxx2coq.method_decls(spec, name)
+            if idx >= len(ds):
+                raise cxx2coq.TranslationError('guard_prefix_facts: %s overload %d not found' % (name, idx))
+            body = [x for x in ds[idx]['inner'] if x['kind'] == 'CompoundStmt'][0]
+            cut = int(pf['until_stmt']); writes = 0; calls = set()
+            for st in body['inner'][:cut]:
+                for n in walk(st):
+                    k = n.get('kind')
+                    if k == 'CompoundAssignOperator' or (k == 'BinaryOperator' and n.get('opcode') == '=') or \
+                            (k == 'UnaryOperator' and n.get('opcode') in ('++', '--')):
+                        writes += 1
+                    if k in ('CXXMemberCallExpr', 'CallExpr', 'CXXOperatorCallExpr'):
+                        c = n['inner'][0]
+                        while c.get('kind') in ('ImplicitCastExpr', 'ParenExpr'):
+                            c = c['inner'][0]
+                        calls.add(c.get('name') or (c.get('referencedDecl') or {}).get('name') or c.get('kind'))
+            rows.append((cfg['name'], fn.get('as', name), cut, len(body['inner']), writes, sorted(calls)))
+    return rows
+
+
+def to_coq(rows, leak_rows=(), noexc=((), 0), sites=(), prefixes=()):
     def sl(l): return '[' + '; '.join('"%s"' % x for x in l) + ']'
     out = ['(* GENERATED by props/C15/vtable.py from the clang AST of /repo/include/momo (do not edit).',
            '   (class, public method, version cells certainly bumped on some path = reachable in every instantiation,',
@@ -247,6 +281,10 @@ def to_coq(rows, leak_rows=(), noexc=((), 0), sites=()):
     out.append('(* entry points that take row ranges / read the raws of a selection directly: does the body contain the version check? *)')
     out.append('Definition stale_check_sites : list (string * string * bool) := [' +
                '; '.join('("%s", "%s", %s)' % (c, m.replace('"', "'"), 'true' if ok else 'false') for c, m, ok in sites) + '].')
+    out.append('(* guard prefixes of the translator configs: (module, guard, statements before the cut, statements of the body, write operators')
+    out.append('   before the cut, names called before the cut) *)')
+    out.append('Definition guard_prefix_facts : list (string * string * nat * nat * nat * list string) := [' +
+               '; '.join('("%s", "%s", %d, %d, %d, %s)' % (m, g, c, n, w, sl(cs)) for m, g, c, n, w, cs in prefixes) + '].')
     return '\n'.join(out) + '\n'
 
 
